@@ -557,10 +557,10 @@ func (c *UConn) clientHandshake(ctx context.Context) (err error) {
 		hs13.serverHello = serverHello
 		hs13.hello = hello
 		hs13.echContext = ech
-		if c.HandshakeState.State13.EarlySecret != nil && session != nil && session.cipherSuite != 0 {
+		if c.HandshakeState.State13.EarlySecret != nil && session != nil && session.cipherSuite != 0 && cipherSuiteTLS13ByID(session.cipherSuite) != nil {
 			hs13.earlySecret = tls13.NewEarlySecretFromSecret(cipherSuiteTLS13ByID(session.cipherSuite).hash.New, c.HandshakeState.State13.EarlySecret)
 		}
-		if c.HandshakeState.MasterSecret != nil && session != nil && session.cipherSuite != 0 {
+		if c.HandshakeState.MasterSecret != nil && session != nil && session.cipherSuite != 0 && cipherSuiteTLS13ByID(session.cipherSuite) != nil {
 			hs13.masterSecret = tls13.NewMasterSecretFromSecret(cipherSuiteTLS13ByID(session.cipherSuite).hash.New, c.HandshakeState.MasterSecret)
 		}
 		if !sessionIsLocked {
